@@ -55,7 +55,7 @@ def make_cfg(r, seed):
 
 
 def plan(tier, seed, jobs):
-    specs = [{"kind": "corpus", "budget_s": 60}]
+    specs = [{"kind": "corpus", "budget_s": 60}, {"kind": "arrival", "seed": seed, "budget_s": 60}]
     if tier == "quick":
         for j in range(jobs):
             specs.append({"kind": "random", "n": 200, "seed": seed, "j": j, "budget_s": 55})
@@ -73,6 +73,23 @@ def run_batch(spec):
                 c = dict(cfg, mode=mode, read_size=rs)
                 h = c01.run_one(b, c, "C02")
                 b.count("corpus_cases")
+    elif spec["kind"] == "arrival":
+        # a tree arrives (moved in / created as a burst) while one inotify_add_watch fails as if that directory had just
+        # vanished: every directory outside that sub-tree must still be covered (engine shared with C07)
+        import errno
+
+        from wdverif.props import c07
+
+        faults = c07.AddWatchFaults()
+        try:
+            for shape in c07.ARRIVAL_SHAPES:
+                for method in ("move_in", "burst"):
+                    for j in range(len(shape) + 2):
+                        if b.expired():
+                            break
+                        c07.run_arrival_fault(b, faults, shape, method, j, errno.ENOENT, spec["seed"])
+        finally:
+            faults.restore()
     elif spec["kind"] == "random":
         r = rng_for(spec["seed"], "C02", spec["j"])
         for n in range(spec["n"]):
